@@ -6,7 +6,12 @@ package ext
 //@ package github.com/basecomplextech/baselibrary/async/internal/context
 
 //@ iface Context.Wait
+// Status: arbitrary; ghost(lastStatusOK, 0) records whether the last Status() call of THIS call
+// returned OK (a context whose Wait channel fired reports a non-OK status in reality; contracts
+// that depend on it say so explicitly instead of assuming it)
 //@ iface Context.Status
+//@   modifies ghost.lastStatusOK at 0
+//@   ensures (ghost(lastStatusOK, 0) == 1) <==> result.Code == "ok"
 //@ iface Context.Done
 //@ iface CancelContext.Wait
 //@ iface CancelContext.Status
